@@ -703,11 +703,13 @@ func (check typecheck) conversion(n *node, typ *itype) error {
 		case representableConst(c, t):
 			ok = true
 		case isInt(n.typ.TypeOf()) && isString(t):
-			codepoint := int64(-1)
-			if i, ok := constant.Int64Val(c); ok {
-				codepoint = i
+			// A value outside the range of valid code points converts to "\uFFFD":
+			// it must not be truncated to 32 bits first.
+			codepoint := rune(-1)
+			if i, ok := constant.Int64Val(c); ok && i == int64(rune(i)) {
+				codepoint = rune(i)
 			}
-			n.rval = reflect.ValueOf(constant.MakeString(string(rune(codepoint))))
+			n.rval = reflect.ValueOf(constant.MakeString(string(codepoint)))
 			ok = true
 		}
 
